@@ -67,8 +67,11 @@ Proof. exact handle_bad_params. Qed.
 (* client-side naming: the method put on the wire is the formatter applied to the client's namespace and the field
    name, replaced only by an explicit method tag (regenerated from client.go makeRpcFunc) *)
 Theorem c12_source_facts :
-  Extracted.method_name_assignments = ["name = c.methodNameFormatter(c.namespace, f.Name)"; "name = tag"]%string.
-Proof. reflexivity. Qed.
+  Extracted.method_name_assignments = ["name = c.methodNameFormatter(c.namespace, f.Name)"; "name = tag"]%string /\
+  (* the server's reverse client reads the server's formatter when a connection is upgraded, not when the option is
+     applied: the order of the server options does not matter for the names of reverse calls *)
+  Extracted.reverse_formatter_read_per_connection = true.
+Proof. split; reflexivity. Qed.
 
 (* the functions this property's model is an abstraction of still have the control / locking / shared-state skeleton the
    model was written against (Skeletons.v, by hand; Extracted.v, regenerated from /repo) *)
